@@ -381,8 +381,10 @@ def store_then_read(ctx: Ctx, w: FunctionInfo) -> Tuple[bool, str]:
                     shrink.add(n.id)
     for t in tests:
         tn = cfg.node_of(t[2])
-        if tn is None or tn.kind != "test":
-            return False, "membership test is not a branch condition"
+        if tn is None or tn.kind != "test" or (tn.ast.test is not t[2] and not (
+                isinstance(tn.ast.test, ast.UnaryOp) and tn.ast.test.operand is t[2])):
+            # the membership test is kept in a flag or combined with other conditions: decide by facts
+            return _store_then_read_facts(ctx, w, cache, acc, shrink, store_nodes)
         miss_label = "true" if isinstance(t[2].ops[0], ast.NotIn) else "false"
         # the test must be exactly the membership test (or its negation)
         core = tn.ast.test
@@ -409,6 +411,41 @@ def store_then_read(ctx: Ctx, w: FunctionInfo) -> Tuple[bool, str]:
                         if not cfg.dominates(sh, sn):
                             return False, "the cache can shrink between the store and the read"
     return True, f"{len(loads)} read(s) of `{cache}[...]` follow a hit or a store"
+
+
+def _store_then_read_facts(ctx: Ctx, w: FunctionInfo, cache: str, acc, shrink, store_nodes) -> Tuple[bool, str]:
+    """every read `cache[key]` happens where the key is known to be in the cache (a fact, possibly through a boolean flag) with
+    any shrinking confined to the miss side, or after a store of that key with no shrinking in between"""
+    from ..shape import facts_at as _fa
+
+    cfg = cfg_of(w.node)
+    loads = [a for a in acc if a[0] == "load"]
+    n_ok = 0
+    for ld in loads:
+        node = ld[2]
+        ktxt = norm(ld[1])
+        ln = cfg.node_of(node)
+        if ln is None:
+            continue
+        facts = _fa(ctx, w, node)
+        if (f"{ktxt} in {cache}", True) in facts:
+            # a hit: whatever shrinks the cache and can run before this read belongs to the miss side
+            for sh in shrink:
+                if cfg.path_exists(sh, ln.id, exceptional=False):
+                    sh_ast = cfg.nodes[sh].ast
+                    if (f"{ktxt} in {cache}", False) not in _fa(ctx, w, sh_ast):
+                        return False, f"the cache can shrink before the hit is read (`{norm(node)}`)"
+            n_ok += 1
+            continue
+        doms = [sn for sn in store_nodes if cfg.dominates(sn, ln.id)]
+        if not doms:
+            return False, f"`{norm(node)}` can be read without a hit and without a preceding store"
+        for sn in doms:
+            for sh in shrink:
+                if sh != sn and cfg.path_exists(sn, sh, exceptional=False) and cfg.path_exists(sh, ln.id, exceptional=False):
+                    return False, "the cache can shrink between the store and the read"
+        n_ok += 1
+    return True, f"{n_ok} read(s) of `{cache}[...]` follow a hit (by fact) or a store"
 
 
 @conds.cond("memo_store_then_read")
